@@ -102,7 +102,7 @@ class ResultTap(logging.Handler):
 
 
 def run_scanner(scanner_cls: Any, config: Any, server: Any, budget: int = 200000, with_db_stub: bool = True, max_virtual: float = 5e6,
-                after_reply: Any = None, mute: Any = None, db_stored: dict[int, list[int]] | None = None) -> dict[str, Any]:
+                after_reply: Any = None, mute: Any = None, db_stored: dict[int, list[int]] | None = None, latency: float | None = None) -> dict[str, Any]:
     wire: list[tuple[int, bytes, bytes | None]] = []
     box: dict[str, Any] = {}
     tap = ResultTap()
@@ -110,6 +110,7 @@ def run_scanner(scanner_cls: Any, config: Any, server: Any, budget: int = 200000
     async def go() -> None:
         await server.setup()
         tr = MemECUTransport(server, wire, budget, after_reply, mute)
+        tr.latency = latency
 
         class Loader:
             @classmethod
